@@ -29,7 +29,18 @@ def main():
         if bad:
             rep.violate("broken:lint", "forbidden construct in the Coq development: " + "; ".join(bad[:5]),
                         {"obligation": "lint", "detail": bad}, no_input=True)
-        known_repro = mod.run(ctx, rep) or ()
+        try:
+            known_repro = mod.run(ctx, rep) or ()
+        except Exception:
+            # The harness could not complete its run.  On the unchanged tree this does not happen; when it does, the code under
+            # test behaved in a way the driver of the correspondence run did not survive (e.g. it closed a stream the caller owns,
+            # returned an object of another shape): the property is no longer shown to hold, and that is what is reported --
+            # with the concrete violations found up to that point, or as a broken obligation naming the traceback.
+            tb = traceback.format_exc()
+            print(tb)
+            rep.oblig("harness-run-completed", False)
+            vlib.broken_obligation(rep, "harness-run", "the correspondence run did not complete:\n" + tb[-1800:], bool(rep.violations))
+            known_repro = ()
         return vlib.finish(ctx, rep, known_repro)
     except Exception:
         traceback.print_exc()
